@@ -1045,6 +1045,15 @@ def _rewrite(t):
         if src[0] == 'call' and src[1] == 'RangeInclusive::new' and len(src) == 4:
             return ('itervar', ('rangeincl', src[2], src[3])) + ident
         return ('itervar', src) + ident
+    # unwrapping a freshly built Ok / Some (a fallible helper spliced into its caller: `let v = helper(x)?` with `fn helper(..) { Ok(f(x)?) }`):
+    # the value, when there is one, is the payload of the only success alternative
+    if t[0] == 'unwrap' and isinstance(t[1], tuple) and t[1]:
+        inner = t[1]
+        alts_ = list(inner[1:]) if inner[0] == 'phi' else [inner]
+        succ = [a for a in alts_ if isinstance(a, tuple) and a and a[0] == 'agg' and isinstance(a[1], str) and a[1].endswith(('Result::Ok', 'Option::Some')) and len(a) == 3]
+        fail = [a for a in alts_ if isinstance(a, tuple) and a and (a[0] == 'residual' or (a[0] == 'agg' and isinstance(a[1], str) and a[1].endswith(('Result::Err', 'Option::None'))))]
+        if len(succ) == 1 and len(succ) + len(fail) == len(alts_):
+            return simplify(succ[0][2][1])
     # the value of `opt.ok_or(e)?` / `.ok_or_else(..)?` when it is there is the value of `opt` when it is there
     if t[0] == 'unwrap' and isinstance(t[1], tuple) and len(t[1]) == 4 and t[1][0] == 'call' and t[1][1] in ('Option::ok_or', 'Option::ok_or_else'):
         return simplify(('unwrap', t[1][2]))
